@@ -93,9 +93,12 @@ P["C07"] = dict(
              "R-ELEMENT-PRESERVE: helmert and molodensky never change the fourth coordinate",
              "R-ONCE: fixing t_obs advances T, R (per axis) and S (once) by their rates exactly once",
              "R-TRANSPOSE: the position_vector and coordinate_frame matrices are element-wise transposes",
+             "R-ROT-ORTHOGONAL: in exact mode R*R^T = I and det R = +1 hold as polynomial identities in the sines and "
+             "cosines of the three angles (normal forms modulo s^2+c^2=1), for both conventions",
              "R-ALIAS-WIRING: element i of T/DT/R/DR comes from the i'th scalar alias or the i'th list element; "
              "S, DS from (scale|s), (scale_trend|ds)"],
-    not_decided=["similarity / rotation-matrix algebra", "molodensky accuracy", "second-order inverse accuracy"],
+    not_decided=["that helmert_common multiplies by the matrix as T + (1+s) R x (only its loop structure is checked)",
+                 "molodensky accuracy", "second-order inverse accuracy in small-angle mode"],
     level="Decides the epoch-independence and untouched-time clauses; the algebraic clauses are not decided.",
     design_ref="DESIGN.md section 3, C07",
 )
@@ -222,6 +225,7 @@ P["C03"] = dict(
              "two directions as documented", "R-PIPE-MIN: the reported count is min over executed steps, len() if none",
              "R-INV-SOURCE: every consumer of the inv modifier reads it from the tokenized parameter map",
              "R-INV-SCOPE: the invocation's inv is removed from the globals handed to a macro body",
+             "R-NAME-SIBLING: is_resource_name() is decided on operator_name(), so prefix modifiers / sugar do not hide a macro step",
              "R-DISPATCH: Op::apply/handle_inversion truth tables"],
     not_decided=["</> desugaring and modifier rotation in the tokenizer", "bit-identity with stand-alone application "
                  "(follows from the shape but is not separately checked)", "omit_* leaking through globals"],
